@@ -183,6 +183,7 @@ func candidate(r *simrt.Run, n *simnode.Node, w *nomsim.World, u types.Address, 
 }
 
 func runC14(r *simrt.Run) {
+	r.WatchLocks() // a lock of the node that is never released is a violation, not a hang
 	t := r.T
 	mode := nomsim.SporkMode(t.Choose(3))
 	w := nomsim.NewWorld(r, nomsim.MockGenesis(mode))
